@@ -24,6 +24,7 @@ META = {
     ],
     "floor_evaluations": {"quick": 20000, "thorough": 200000},
     "floor_nontrivial": {"quick": 3000, "thorough": 30000},
+    "threads": 3,
     "anchors": ["func_adl/util_ast.py", "func_adl/object_stream.py"],
 }
 
@@ -140,6 +141,9 @@ def run_value(mon, ds, capmod, v, rnd):
 
     def c13_func(x: float, a=v) -> float: ...
 
+    # registration is global and by name: every collector (thread) registers under a name of its own
+    fname = f"c13_func_{ctx.shard}"
+    c13_func.__name__ = c13_func.__qualname__ = fname
     func_adl_callable()(c13_func)
 
     # the same declaration reached through inheritance: plain subclass, and a diamond where only the second base overrides
@@ -166,7 +170,7 @@ def run_value(mon, ds, capmod, v, rnd):
         ("default.method.diamond", "lambda e: e.dm()", lambda s: s.query_ast.args[1].body.args[0]),
         ("default.method.diamond-nested", "lambda e: e.mine().Select(lambda f: f.dm())", lambda s: s.query_ast.args[1].body.args[0].body.args[0]),
         ("default.method", "lambda e: e.m()", lambda s: s.query_ast.args[1].body.args[0]),
-        ("default.function", "lambda e: c13_func(e.f(1))", lambda s: s.query_ast.args[1].body.args[1]),
+        ("default.function", f"lambda e: {fname}(e.f(1))", lambda s: s.query_ast.args[1].body.args[1]),
     ]:
         try:
             s = tds.Select(text)
